@@ -81,12 +81,12 @@ Proof.
 Qed.
 
 (** * Error of a float sum of three products, real-number core (as in the dot product) *)
-Lemma sum3_real A B C d1 d2 d3 d4 d5 h1 h2 h3 h4 h5 :
+Lemma sum3_real_eta A B C d1 d2 d3 d4 d5 h1 h2 h3 h4 h5 :
   Rabs d1 <= u -> Rabs d2 <= u -> Rabs d3 <= u -> Rabs d4 <= u -> Rabs d5 <= u ->
   Rabs h1 <= eta -> Rabs h2 <= eta -> Rabs h3 <= eta -> Rabs h4 <= eta -> Rabs h5 <= eta ->
   Rabs (((A * (1 + d1) + h1 + (B * (1 + d2) + h2)) * (1 + d4) + h4 + (C * (1 + d3) + h3)) * (1 + d5) + h5
         - (A + B + C))
-  <= (Rabs A + Rabs B + Rabs C) * ((1 + u) * (1 + u) * (1 + u) - 1) + 9 * (u * u).
+  <= (Rabs A + Rabs B + Rabs C) * ((1 + u) * (1 + u) * (1 + u) - 1) + 9 * eta.
 Proof.
   intros D1 D2 D3 D4 D5 H1 H2 H3 H4 H5.
   pose proof u_half as Hu. pose proof u_small as Hus. destruct eta_bounds as [Et0 Et1]. fold eta in *.
@@ -99,7 +99,7 @@ Proof.
   replace (((A * (1 + d1) + h1 + (B * (1 + d2) + h2)) * (1 + d4) + h4 + (C * (1 + d3) + h3)) * (1 + d5) + h5 - (A + B + C))
     with (A * ((1 + d1) * (1 + d4) * (1 + d5) - 1) + B * ((1 + d2) * (1 + d4) * (1 + d5) - 1)
           + C * ((1 + d3) * (1 + d5) * (1 + 0) - 1) + R_) by (unfold R_; ring).
-  assert (HR : Rabs R_ <= 9 * (u * u)).
+  assert (HR : Rabs R_ <= 9 * eta).
   { unfold R_. apply Rabs_le_inv in D4, D5, H1, H2, H3, H4, H5.
     assert (HA : 0 <= (1 + d4) * (1 + d5) <= 2) by nra.
     assert (HB : 0 <= 1 + d5 <= 2) by lra.
@@ -116,6 +116,17 @@ Proof.
     + rewrite Rabs_mult. apply Rmult_le_compat_l; [apply Rabs_pos|exact G1].
     + rewrite Rabs_mult. apply Rmult_le_compat_l; [apply Rabs_pos|exact G2].
   - rewrite Rabs_mult. apply Rmult_le_compat_l; [apply Rabs_pos|exact G3].
+Qed.
+
+Lemma sum3_real A B C d1 d2 d3 d4 d5 h1 h2 h3 h4 h5 :
+  Rabs d1 <= u -> Rabs d2 <= u -> Rabs d3 <= u -> Rabs d4 <= u -> Rabs d5 <= u ->
+  Rabs h1 <= eta -> Rabs h2 <= eta -> Rabs h3 <= eta -> Rabs h4 <= eta -> Rabs h5 <= eta ->
+  Rabs (((A * (1 + d1) + h1 + (B * (1 + d2) + h2)) * (1 + d4) + h4 + (C * (1 + d3) + h3)) * (1 + d5) + h5
+        - (A + B + C))
+  <= (Rabs A + Rabs B + Rabs C) * ((1 + u) * (1 + u) * (1 + u) - 1) + 9 * (u * u).
+Proof.
+  intros. destruct eta_bounds as [_ Et1].
+  eapply Rle_trans; [apply sum3_real_eta; assumption|]. lra.
 Qed.
 
 (** * IsUnit *)
